@@ -347,6 +347,26 @@ class _DropAnn(ast.NodeTransformer):
             r = _containment_from_quantifier(n)
             if r is not None:
                 return r
+            # set(..).difference(B) -> set(..) - B   (and union/intersection/symmetric_difference) for receivers that are sets by
+            # their spelling
+            if isinstance(n.func, ast.Attribute) and n.func.attr in ("difference", "union", "intersection", "symmetric_difference") \
+                    and len(n.args) == 1 and not n.keywords and (
+                        isinstance(n.func.value, (ast.Set, ast.SetComp)) or isinstance(n.func.value, ast.Call)
+                        and isinstance(n.func.value.func, ast.Name) and n.func.value.func.id in ("set", "frozenset")):
+                op = {"difference": ast.Sub, "union": ast.BitOr, "intersection": ast.BitAnd, "symmetric_difference": ast.BitXor}[n.func.attr]()
+                out = ast.BinOp(n.func.value, op, n.args[0])
+                return ast.copy_location(out, n)
+            # pairwise(X)  ->  zip(X[:-1], X[1:])
+            if (isinstance(n.func, ast.Name) and n.func.id == "pairwise" or isinstance(n.func, ast.Attribute) and n.func.attr == "pairwise") \
+                    and len(n.args) == 1 and not n.keywords and isinstance(n.args[0], ast.Name):
+                import copy as _copy
+                X = n.args[0]
+                a = ast.Subscript(_copy.deepcopy(X), ast.Slice(None, ast.UnaryOp(ast.USub(), ast.Constant(1)), None), ast.Load())
+                b = ast.Subscript(_copy.deepcopy(X), ast.Slice(ast.Constant(1), None, None), ast.Load())
+                out = ast.Call(ast.Name("zip", ast.Load()), [a, b], [])
+                for y in ast.walk(out):
+                    ast.copy_location(y, n)
+                return out
             # A.issubset(B)  ->  all(e in B for e in A)        B.issuperset(A) likewise
             if isinstance(n.func, ast.Attribute) and n.func.attr in ("issubset", "issuperset") and len(n.args) == 1 and not n.keywords:
                 A, B = (n.func.value, n.args[0]) if n.func.attr == "issubset" else (n.args[0], n.func.value)
@@ -487,6 +507,7 @@ def _drop_local_annotations(tree: ast.Module) -> None:
     for y in tree.body:
         if isinstance(y, ast.FunctionDef):
             _worklist_to_recursion(y, False)
+            _cursor_frames_to_lists(y)
     from . import memo
     for x in ast.walk(tree):
         if isinstance(x, ast.FunctionDef):
@@ -907,6 +928,168 @@ def _drop_length_shadows(fn: ast.FunctionDef) -> int:
     if count:
         ast.fix_missing_locations(fn)
     return count
+
+
+def _cursor_frames_to_lists(fn: ast.FunctionDef) -> bool:
+    """Stack frames `(node, items, position)` that walk a fixed list with a cursor are read as frames `(node, items)`
+    whose list is consumed from the back:
+
+        items[position]            ->  items[-1]                 position += 1            ->  items.pop()
+        position < len(items)      ->  len(items) > 0            position == len(items)   ->  len(items) == 0
+        x = items[position] ... push((node, items, position + 1))   ->   x = items.pop() ... push((node, items))
+        items = sorted(E)          ->  items = sorted(E, reverse=True)      (same visiting order)
+
+    Only when `position` and `items` are used in no other way (in particular the list is never changed in place)."""
+    import copy as _copy
+    pops = [n for n in ast.walk(fn) if isinstance(n, ast.Assign) and len(n.targets) == 1 and isinstance(n.targets[0], ast.Tuple)
+            and len(n.targets[0].elts) == 3 and all(isinstance(t, ast.Name) for t in n.targets[0].elts)
+            and isinstance(n.value, ast.Call) and isinstance(n.value.func, ast.Attribute) and n.value.func.attr == "pop"
+            and isinstance(n.value.func.value, ast.Name) and not n.value.args]
+    if len(pops) != 1:
+        return False
+    fp = pops[0]
+    A, L, I = (t.id for t in fp.targets[0].elts)
+    S = fp.value.func.value.id
+    parents: dict[int, ast.AST] = {}
+    for p_ in ast.walk(fn):
+        for c_ in ast.iter_child_nodes(p_):
+            parents[id(c_)] = p_
+    plan: list = []
+
+    def len_of_L(e) -> bool:
+        return isinstance(e, ast.Call) and isinstance(e.func, ast.Name) and e.func.id == "len" and len(e.args) == 1 \
+            and isinstance(e.args[0], ast.Name) and e.args[0].id == L
+
+    # every use of the cursor
+    for n in ast.walk(fn):
+        if not (isinstance(n, ast.Name) and n.id == I):
+            continue
+        p_ = parents.get(id(n))
+        if p_ is fp.targets[0]:
+            continue
+        if isinstance(p_, ast.Subscript) and p_.slice is n and isinstance(p_.value, ast.Name) and p_.value.id == L and isinstance(p_.ctx, ast.Load):
+            plan.append(("index", p_))
+            continue
+        if isinstance(p_, ast.Compare) and len(p_.ops) == 1:
+            a_, b_ = p_.left, p_.comparators[0]
+            op = type(p_.ops[0])
+            if a_ is n and len_of_L(b_) and op in (ast.Lt, ast.NotEq, ast.Eq, ast.GtE):
+                plan.append(("cmp", p_, op in (ast.Lt, ast.NotEq)))
+                continue
+            if b_ is n and len_of_L(a_) and op in (ast.Gt, ast.NotEq, ast.Eq, ast.LtE):
+                plan.append(("cmp", p_, op in (ast.Gt, ast.NotEq)))
+                continue
+            return False
+        if isinstance(p_, ast.AugAssign) and p_.target is n and isinstance(p_.op, ast.Add) and isinstance(p_.value, ast.Constant) and p_.value.value == 1:
+            plan.append(("step", p_))
+            continue
+        if isinstance(p_, ast.Tuple) and len(p_.elts) == 3 and p_.elts[2] is n:
+            plan.append(("push-same", p_))
+            continue
+        if isinstance(p_, ast.BinOp) and isinstance(p_.op, ast.Add) and p_.left is n and isinstance(p_.right, ast.Constant) and p_.right.value == 1 \
+                and isinstance(parents.get(id(p_)), ast.Tuple) and len(parents[id(p_)].elts) == 3 and parents[id(p_)].elts[2] is p_:
+            plan.append(("push-next", parents[id(p_)]))
+            continue
+        return False
+    if not any(k[0] in ("index", "step", "push-next") for k in plan):
+        return False
+    # the list itself is only read
+    for n in ast.walk(fn):
+        if isinstance(n, ast.Call) and isinstance(n.func, ast.Attribute) and isinstance(n.func.value, ast.Name) and n.func.value.id == L \
+                and n.func.attr in _MUTATORS:
+            return False
+        if isinstance(n, ast.Subscript) and isinstance(n.ctx, (ast.Store, ast.Del)) and isinstance(n.value, ast.Name) and n.value.id == L:
+            return False
+    # frames: every tuple pushed on / stored in the stack has three parts, the third being 0, the cursor or cursor + 1
+    frames = []
+    for n in ast.walk(fn):
+        tup = None
+        if isinstance(n, ast.Call) and isinstance(n.func, ast.Attribute) and n.func.attr == "append" and isinstance(n.func.value, ast.Name) \
+                and n.func.value.id == S and len(n.args) == 1:
+            tup = n.args[0]
+        elif isinstance(n, (ast.Assign, ast.AnnAssign)) and getattr(n, "value", None) is not None \
+                and isinstance(n.targets[0] if isinstance(n, ast.Assign) else n.target, ast.Name) \
+                and (n.targets[0] if isinstance(n, ast.Assign) else n.target).id == S and isinstance(n.value, ast.List):
+            for e in n.value.elts:
+                frames.append(e)
+            continue
+        if tup is not None:
+            frames.append(tup)
+    for t in frames:
+        if not (isinstance(t, ast.Tuple) and len(t.elts) == 3):
+            return False
+        third = t.elts[2]
+        if isinstance(third, ast.Constant) and third.value == 0:
+            continue
+        if any(k[0] in ("push-same", "push-next") and k[1] is t for k in plan):
+            if not (isinstance(t.elts[1], ast.Name) and t.elts[1].id == L):
+                return False
+            continue
+        return False
+    # sorted() definitions of the list: the order is reversed
+    sorts = []
+    for n in ast.walk(fn):
+        if isinstance(n, ast.Assign) and len(n.targets) == 1 and isinstance(n.targets[0], ast.Name) and n.targets[0].id == L \
+                and isinstance(n.value, ast.Call) and isinstance(n.value.func, ast.Name) and n.value.func.id == "sorted":
+            rv = next((k for k in n.value.keywords if k.arg == "reverse"), None)
+            if rv is not None and not (isinstance(rv.value, ast.Constant) and isinstance(rv.value.value, bool)):
+                return False
+            sorts.append((n.value, rv))
+    # ---- rewrite
+    for kind, node, *more in plan:
+        if kind == "index":
+            node.slice = ast.copy_location(ast.UnaryOp(ast.USub(), ast.Constant(1)), node.slice)
+        elif kind == "cmp":
+            nonempty = more[0]
+            node.left = ast.copy_location(ast.Call(ast.Name("len", ast.Load()), [ast.Name(L, ast.Load())], []), node)
+            node.ops = [ast.Gt() if nonempty else ast.Eq()]
+            node.comparators = [ast.copy_location(ast.Constant(0), node)]
+    for kind, node, *more in plan:
+        if kind == "step":
+            par = parents.get(id(node))
+            for fld in ("body", "orelse", "finalbody"):
+                blk = getattr(par, fld, None)
+                if isinstance(blk, list) and node in blk:
+                    blk[blk.index(node)] = ast.copy_location(ast.Expr(ast.Call(ast.Attribute(ast.Name(L, ast.Load()), "pop", ast.Load()), [], [])), node)
+    for kind, node, *more in plan:
+        if kind in ("push-same", "push-next"):
+            if kind == "push-next":
+                # the element taken just before: `x = items[-1]` in the same block becomes `x = items.pop()`
+                st = node
+                while id(st) in parents and not isinstance(st, ast.stmt):
+                    st = parents[id(st)]
+                par = parents.get(id(st))
+                done = False
+                for fld in ("body", "orelse", "finalbody"):
+                    blk = getattr(par, fld, None)
+                    if isinstance(blk, list) and st in blk:
+                        k = blk.index(st)
+                        for j in range(k - 1, -1, -1):
+                            b_ = blk[j]
+                            if isinstance(b_, ast.Assign) and len(b_.targets) == 1 and isinstance(b_.targets[0], ast.Name) \
+                                    and isinstance(b_.value, ast.Subscript) and isinstance(b_.value.value, ast.Name) and b_.value.value.id == L \
+                                    and isinstance(b_.value.slice, ast.UnaryOp):
+                                b_.value = ast.copy_location(ast.Call(ast.Attribute(ast.Name(L, ast.Load()), "pop", ast.Load()), [], []), b_.value)
+                                done = True
+                                break
+                            if not isinstance(b_, (ast.Assign, ast.Expr)) or any(isinstance(y, ast.Name) and y.id == L for y in ast.walk(b_)):
+                                break
+                        if not done:
+                            blk.insert(k, ast.copy_location(ast.Expr(ast.Call(ast.Attribute(ast.Name(L, ast.Load()), "pop", ast.Load()), [], [])), st))
+            node.elts = node.elts[:2]
+    for t in frames:
+        if len(t.elts) == 3:
+            t.elts = t.elts[:2]
+    fp.targets[0].elts = fp.targets[0].elts[:2]
+    for call, rv in sorts:
+        if rv is None:
+            call.keywords.append(ast.keyword("reverse", ast.Constant(True)))
+        elif rv.value.value is True:
+            call.keywords.remove(rv)
+        else:
+            rv.value = ast.Constant(True)
+    ast.fix_missing_locations(fn)
+    return True
 
 
 def _is_chain_from_iterable(e: ast.AST) -> ast.expr | None:
